@@ -1,7 +1,8 @@
 (* C02  Container-size facts hold in every UB-free execution (partial: the library's
    action table, the analyzer's size step and the SIZE/EMPTY yield mapping). *)
-From CV Require Import Base.Bytes Cont.Gen_StdCfg Cont.Defs Cont.Proofs.
+From CV Require Import Base.Bytes Cont.Gen_StdCfg Cont.Defs Cont.Proofs Cont.Overloads Cont.OvProofs.
 Local Open Scope Z_scope.
+Definition ex_tbl := match load std_raw with Some t => t | None => [] end.
 
 (* For every container of the regenerated table (any table, in fact), every member name, every
    standard container kind its startPattern stands for, every number of arguments, every length of
@@ -16,6 +17,25 @@ Theorem C02_size_effect_sound :
     sound_step L (analyzer_step (get_action c m) (get_yield c m) nargs var L) (std_effect k m nargs).
 Proof. exact size_effect_sound. Qed.
 Print Assumptions C02_size_effect_sound.
+
+(* The overload dimension made explicit: for basic_string / vector / deque / list every overload the standard defines
+   for append, assign, insert, erase, replace, resize, push/pop, clear - (count, ch), (ptr), (ptr, count), (str), (str, pos),
+   (str, pos, len), iterator ranges, initializer lists, index / iterator positions - with ANY numeric arguments (counts,
+   positions, lengths, size of the source), any size n and any value: unless the shape is listed by unsound_ov_cases,
+   the analyzer's step is sound. L is the length the analyzer obtained for a single argument (0 = unknown), Ls the real one.
+   E.g. append(str, pos) adds size(str) - pos (Example append_str_pos), and the model's step for it is "lower to Possible". *)
+Theorem C02_size_effect_sound_overloads :
+  forall tbl id c m k o var L Ls,
+    In (id, c) tbl -> In k (kinds_of_start (c_start c)) ->
+    ~ In (mkOCase id m k (lshape_of (o_lead o)) (sshape_of (o_src o)) var) (unsound_ov_cases tbl) ->
+    (L = 0 \/ L = Ls) ->
+    sound_step Ls (analyzer_step (get_action c m) (get_yield c m) (arity o) var L) (std_eff_ov k m o).
+Proof. exact size_effect_sound_ov. Qed.
+Print Assumptions C02_size_effect_sound_overloads.
+
+(* the premise is inhabited: 100+ overload shapes exist on the regenerated table (the check reads unsound_ov_cases from the model) *)
+Example C02_ex_overloads : (100 <= length (existing_ov_cases ex_tbl))%nat.
+Proof. apply Nat.leb_le; vm_compute; reflexivity. Qed.
 
 (* ... and every listed case is a genuine counterexample in the model: a size, a correct value and
    an allowed execution after which the written value is wrong. *)
@@ -43,7 +63,6 @@ Proof. exact size_of_size_sound. Qed.
 Print Assumptions C02_size_of_size_sound.
 
 (* premises are inhabited *)
-Definition ex_tbl := match load std_raw with Some t => t | None => [] end.
 Example C02_ex_table_loads : exists t, load std_raw = Some t /\ (10 <= length t)%nat.
 Proof. exists ex_tbl. vm_compute. split; [reflexivity|]. repeat constructor. Qed.
 Example C02_ex_covered : (100 <= length (covered_cases ex_tbl))%nat.
